@@ -49,6 +49,7 @@ type Profile struct {
 	PBlankCo      int  // % of constant string coercers that return a blank (absent-looking) string
 	PCustomTpl    int  // % of cases run under a user-edited language map whose templates name several parameters (tests carry them through Params)
 	PSameKind     int  // % of string nodes with two or more tests whose tests are all of the kind of the first (Contains twice, Min twice, ...)
+	PBareIssue    int  // % of failing PostTransforms that return a hand-built issue without path and type
 	PLongOneOf    int  // % of built-in tests on strings and numbers that are a OneOf over a long list with no custom message
 	NilBias       bool // whole inputs are re-drawn (up to 10 times) until the implementation reports no issues
 	Repeats       int  // how many times a case is re-run (with reshuffled schema insertion orders and varying pool states)
@@ -228,6 +229,9 @@ func (g *Gen) pt(n *Node) PTSpec {
 	if r.P(g.P.PPTErr) {
 		p.Op = Pick(r, []string{"err", "mut_err", "issue", "wrap_issue"})
 		if p.Op == "issue" && r.Fork(0xba5e).P(40) {
+			p.Op = "bare_issue"
+		}
+		if g.P.PBareIssue > 0 && r.Fork(0xba5f).P(g.P.PBareIssue) {
 			p.Op = "bare_issue"
 		}
 		p.S = Pick(r, []string{"boom", "bad"})
@@ -729,6 +733,8 @@ func ProfileByName(name string) Profile {
 		p.PPre = 0
 		p.PCustom = 12
 		p.PPT = 20
+		p.PPTErr = 45 // (errors and hand-built issues returned by PostTransforms: both modes report them alike)
+		p.PBareIssue = 50
 		p.PCoercer = 0
 		p.PTests = 75
 		p.PCatch = 25
